@@ -15,5 +15,5 @@ for d in seeded/*/; do
   done
   git -C "$R" checkout -- .
 done
-/venv/bin/python translate/py2v.py coq/Gen >/dev/null 2>&1; /venv/bin/python translate/f902v.py coq/Gen >/dev/null 2>&1
+/venv/bin/python translate/py2v.py coq/Gen >/dev/null 2>&1; /venv/bin/python translate/f902v.py coq/Gen >/dev/null 2>&1; /venv/bin/python translate/f902v_fn.py coq/Gen >/dev/null 2>&1
 echo "matrix done"
